@@ -1,6 +1,280 @@
-# Extra (non-Kani) engines: E2 mir2smt, E3 CBMC on the Semtech C reference.  Each job is a callable
-# job(logdir) -> dict(entry=<harness-like dict with id, verdict, reason, bounds, ...>,
-#                     verdict='held'|'violated'|'inconclusive', queries=int, solver_time_s=float,
-#                     validated=int, replay=<path or None>)
+# Extra (non-Kani) engines: E2 mir2smt (z3 + cvc5 on the SMT-LIB translation of rustc MIR),
+# E3 CBMC on the Semtech C reference.  Each job is a callable
+#   job(logdir) -> dict(entry=<harness-like dict>, verdict='held'|'violated'|'inconclusive',
+#                       queries=int, solver_time_s=float, validated=int, replay=<path or None>)
+import os, re, json, time, subprocess, shutil
+import lrv, mir2smt
+
+NIGHTLY = "nightly"
+
+
+def _run(cmd, cwd=None, timeout=600, env=None, inp=None):
+    t0 = time.time()
+    try:
+        p = subprocess.run(cmd, cwd=cwd, timeout=timeout, env=env or lrv.ENV, input=inp,
+                           stdout=subprocess.PIPE, stderr=subprocess.STDOUT)
+        return p.returncode, p.stdout.decode(errors="replace"), time.time() - t0
+    except subprocess.TimeoutExpired as e:
+        return -9, (e.stdout or b"").decode(errors="replace") + "\nTIMEOUT", time.time() - t0
+
+
+def mir_dump(scratch, package, logdir):
+    """textual MIR of <package> at mir-opt-level 0 with overflow checks, from the scratch copy"""
+    src = os.path.join(scratch, "src")
+    out = os.path.join(logdir, "%s.mir" % package)
+    cmd = ["cargo", "+" + NIGHTLY, "rustc", "--offline", "-p", package, "--lib",
+           "--target-dir", os.path.join(scratch, "target-mir"), "--",
+           "-Zunpretty=mir", "-Zmir-opt-level=0", "-C", "debug-assertions=off", "-C", "overflow-checks=on"]
+    env = dict(lrv.ENV)
+    rc, text, dt = _run(cmd, cwd=src, timeout=900, env=env)
+    # stdout carries the MIR, cargo's progress goes to stderr (merged): keep MIR lines only
+    open(out, "w").write(text)
+    if rc != 0 or "fn " not in text:
+        raise lrv.Inconclusive("MIR dump of %s failed (rc=%s): %s" % (package, rc, text[-400:]))
+    return text, dt
+
+
+def solve(smt, solver, timeout=300):
+    cmd = {"z3": ["z3", "-in", "-T:%d" % timeout], "cvc5": ["cvc5", "--lang", "smt2", "--incremental", "--tlimit=%d" % (timeout * 1000)]}[solver]
+    rc, out, dt = _run(cmd, inp=smt.encode(), timeout=timeout + 30)
+    return out, dt
+
+
+def parse_answers(out):
+    """-> list of ('sat'|'unsat'|'unknown'|'error', model text) per (check-sat)"""
+    res = []
+    cur = None
+    for line in out.splitlines():
+        s = line.strip()
+        if s in ("sat", "unsat", "unknown"):
+            cur = [s, ""]
+            res.append(cur)
+        elif s.startswith("(error") or "TIMEOUT" in s or s.startswith("timeout"):
+            res.append(["error", s])
+            cur = None
+        elif cur is not None:
+            cur[1] += s + " "
+    return res
+
+
+DUMP_SX126X = r'''
+#[cfg(test)]
+mod verif_dump_pll {
+    use super::*;
+    struct D;
+    #[derive(Debug)]
+    struct E;
+    impl embedded_hal_async::spi::Error for E { fn kind(&self) -> embedded_hal_async::spi::ErrorKind { embedded_hal_async::spi::ErrorKind::Other } }
+    impl embedded_hal_async::spi::ErrorType for D { type Error = E; }
+    impl embedded_hal_async::spi::SpiDevice<u8> for D {
+        async fn transaction(&mut self, _o: &mut [embedded_hal_async::spi::Operation<'_, u8>]) -> Result<(), E> { Ok(()) }
+    }
+    impl crate::InterfaceVariant for D {
+        async fn reset(&mut self, _d: &mut impl embedded_hal_async::delay::DelayNs) -> Result<(), RadioError> { Ok(()) }
+        async fn wait_on_busy(&mut self) -> Result<(), RadioError> { Ok(()) }
+        async fn await_irq(&mut self) -> Result<(), RadioError> { Ok(()) }
+        async fn enable_rf_switch_rx(&mut self) -> Result<(), RadioError> { Ok(()) }
+        async fn enable_rf_switch_tx(&mut self) -> Result<(), RadioError> { Ok(()) }
+        async fn disable_rf_switch(&mut self) -> Result<(), RadioError> { Ok(()) }
+    }
+    #[test]
+    fn verif_dump_pll_sx126x() {
+        let s = std::fs::read_to_string(std::env::var("LRV_INPUTS").unwrap()).unwrap();
+        for l in s.lines() {
+            let f: u32 = l.trim().parse().unwrap();
+            let r = std::panic::catch_unwind(|| Sx126x::<D, D, Sx1262>::convert_freq_in_hz_to_pll_step(f));
+            match r { Ok(v) => println!("LRV f126 {} {}", f, v), Err(_) => println!("LRV f126 {} PANIC", f) }
+        }
+    }
+}
+'''
+DUMP_SX127X = r'''
+#[cfg(test)]
+mod verif_dump_pll {
+    use super::*;
+    #[test]
+    fn verif_dump_pll_sx127x() {
+        let s = std::fs::read_to_string(std::env::var("LRV_INPUTS").unwrap()).unwrap();
+        for l in s.lines() {
+            let f: u32 = l.trim().parse().unwrap();
+            match std::panic::catch_unwind(|| freq_to_pll_step(f)) { Ok(v) => println!("LRV f127 {} {}", f, v), Err(_) => println!("LRV f127 {} PANIC", f) }
+            match std::panic::catch_unwind(|| pll_step_to_freq(f)) { Ok(v) => println!("LRV g127 {} {}", f, v), Err(_) => println!("LRV g127 {} PANIC", f) }
+        }
+    }
+}
+'''
+
+
+def native_eval(scratch, inputs, logdir):
+    """run the real compiled kernels on `inputs` (list of u32) -> {('f126', x): value|'PANIC', ...}"""
+    src = os.path.join(scratch, "src")
+    for rel, text in (("lora-phy/src/sx126x/mod.rs", DUMP_SX126X), ("lora-phy/src/sx127x/mod.rs", DUMP_SX127X)):
+        p = os.path.join(src, rel)
+        body = open(p).read()
+        if "mod verif_dump_pll" not in body:
+            open(p, "a").write(text)
+    inp = os.path.join(logdir, "pll_inputs.txt")
+    open(inp, "w").write("\n".join(str(x) for x in inputs) + "\n")
+    env = dict(lrv.ENV)
+    env["LRV_INPUTS"] = inp
+    cmd = ["cargo", "test", "--offline", "-p", "lora-phy", "--lib", "--target-dir", os.path.join(scratch, "target-native"),
+           "verif_dump_pll", "--", "--nocapture", "--test-threads", "1"]
+    rc, out, dt = _run(cmd, cwd=src, timeout=1500, env=env)
+    open(os.path.join(logdir, "pll_native.log"), "w").write(out)
+    res = {}
+    for m in re.finditer(r"LRV (\w+) (\d+) (\d+|PANIC)", out):
+        res[(m.group(1), int(m.group(2)))] = m.group(3) if m.group(3) == "PANIC" else int(m.group(3))
+    if not res:
+        raise lrv.Inconclusive("native evaluation of the PLL kernels produced nothing (rc=%s): %s" % (rc, out[-300:]))
+    return res
+
+
+# ---- C17: PLL word kernels ------------------------------------------------------------------
+FMIN, FMAX = 137_000_000, 1_020_000_000
+XTAL = 32_000_000
+
+C17_QUERIES = [
+    # (id, kernel, description, negated property over f)
+    ("sx126x_no_panic", "f126", "convert_freq_in_hz_to_pll_step never fails an overflow/division check",
+     "(not (f126_ok f))"),
+    ("sx126x_nearest", "f126", "|word * Fxtal - f * 2^25| <= Fxtal/2  (rounded to nearest, < 0.48 Hz)",
+     "(not (<= (abs (- (* (f126 f) 32000000) (* f 33554432))) 16000000))"),
+    ("sx127x_no_panic", "f127", "freq_to_pll_step / pll_step_to_freq never fail a check",
+     "(not (and (f127_ok f) (g127_ok (f127 f))))"),
+    ("sx127x_floor", "f127", "word * Fxtal <= f * 2^19 < (word + 1) * Fxtal  (within one 61.04 Hz step)",
+     "(not (and (<= (* (f127 f) 32000000) (* f 524288)) (< (* f 524288) (* (+ (f127 f) 1) 32000000))))"),
+    ("sx127x_roundtrip", "g127", "0 <= f - pll_step_to_freq(freq_to_pll_step(f)) < 62",
+     "(not (and (<= (g127 (f127 f)) f) (< (- f (g127 (f127 f))) 62)))"),
+]
+
+
+def check_prop_python(qid, f, nat):
+    """re-evaluate a query's property on the *native* outputs for input f (exact integers)"""
+    if qid == "sx126x_no_panic":
+        return nat.get(("f126", f)) != "PANIC"
+    if qid == "sx126x_nearest":
+        w = nat.get(("f126", f))
+        return w != "PANIC" and abs(w * XTAL - f * (1 << 25)) <= XTAL // 2
+    if qid == "sx127x_no_panic":
+        return nat.get(("f127", f)) != "PANIC"
+    if qid == "sx127x_floor":
+        w = nat.get(("f127", f))
+        return w != "PANIC" and w * XTAL <= f * (1 << 19) < (w + 1) * XTAL
+    return True
+
+
+def job_c17_pll(tier):
+    def job(logdir):
+        t0 = time.time()
+        entry = dict(id="pll_word_mir2smt", file="lib/engines.py", anchor="lora-phy/src/sx126x/mod.rs, lora-phy/src/sx127x/mod.rs",
+                     build="mir", bounds="every frequency %d..=%d Hz (8.83e8 values) as one integer variable per query; z3 and cvc5 must agree" % (FMIN, FMAX),
+                     assumes=["mir2smt translation of rustc's MIR (opt-level 0, overflow checks on) is validated on every run against the compiled functions on sample inputs",
+                              "SX126x/SX127x crystal 32 MHz; SX126x step 2^-25, SX127x step 2^-19 of Fxtal (datasheets)"],
+                     encodes=["sx126x::Sx126x::convert_freq_in_hz_to_pll_step", "sx127x::freq_to_pll_step", "sx127x::pll_step_to_freq"],
+                     outside=["frequencies outside 137..1020 MHz"])
+        res = dict(entry=entry, verdict="held", queries=0, solver_time_s=0.0, validated=0, replay=None)
+        scratch = lrv.make_scratch("C17-mir")
+        try:
+            text, dt = mir_dump(scratch, "lora-phy", logdir)
+            mod = mir2smt.Module(text)
+            sx126 = [n for n in mod.funcs if n.startswith("sx126x::") and n.endswith("::convert_freq_in_hz_to_pll_step")]
+            if len(sx126) != 1:
+                raise lrv.Inconclusive("sx126x convert_freq_in_hz_to_pll_step not found exactly once in the MIR dump")
+            defs = [mir2smt.define_fun(mod, sx126[0], "f126"), mir2smt.define_fun(mod, "freq_to_pll_step", "f127"),
+                    mir2smt.define_fun(mod, "pll_step_to_freq", "g127")]
+            prelude = "(set-logic ALL)\n" + "".join(d["text"] for d in defs)
+            entry["translated"] = [dict(fn=d["name"], paths=d["paths"], obligations=d["obligations"], mir_statements=d["steps"]) for d in defs]
+            # ---- translator validation: encoding vs compiled code on sample inputs
+            samples = [FMIN, FMAX, 433_175_000, 868_100_000, 868_300_000, 869_525_000, 902_300_000, 903_900_000, 915_000_000,
+                       923_300_000, 927_500_000, 470_300_000, 0, 1, 15_624, 15_625, 4_294_967_295, 2_147_483_648, 999_999_999]
+            samples += [863_000_000 + 100 * k * 997 for k in range(40)]
+            nat = native_eval(scratch, samples, logdir)
+            q = prelude
+            for x in samples:
+                q += "(push)(declare-const r1 Int)(declare-const r2 Int)(declare-const r3 Int)(assert (= r1 (f126 %d)))(assert (= r2 (f127 %d)))(assert (= r3 (g127 %d)))(check-sat)(get-value (r1 r2 r3 (f126_ok %d) (g127_ok %d)))(pop)\n" % (x, x, x, x, x)
+            out, dt = solve(q, "z3", 300)
+            ans = parse_answers(out)
+            if len(ans) != len(samples) or any(a[0] != "sat" for a in ans):
+                raise lrv.Inconclusive("translator validation: solver did not evaluate the encoding: " + out[:300])
+            bad = []
+            for x, a in zip(samples, ans):
+                vals = re.findall(r"\((?:r\d|\([^()]*\)) (\(- \d+\)|\d+|true|false)\)", a[1])
+                vals = re.findall(r"(true|false|\(- \d+\)|\d+)\)", a[1])
+                nums = re.findall(r"\(r(\d) (\d+)\)", a[1])
+                oks = re.findall(r"_ok \d+\) (true|false)\)", a[1])
+                enc = {int(k): int(v) for k, v in nums}
+                if len(enc) != 3 or len(oks) != 2:
+                    raise lrv.Inconclusive("translator validation: cannot read model: " + a[1][:200])
+                n126, n127, g127 = nat.get(("f126", x)), nat.get(("f127", x)), nat.get(("g127", x))
+                if (n126 == "PANIC") != (oks[0] == "false") or (n126 != "PANIC" and n126 != enc[1]):
+                    bad.append(("f126", x, n126, enc[1], oks[0]))
+                if n127 != enc[2]:
+                    bad.append(("f127", x, n127, enc[2]))
+                if (g127 == "PANIC") != (oks[1] == "false") or (g127 != "PANIC" and g127 != enc[3]):
+                    bad.append(("g127", x, g127, enc[3], oks[1]))
+                res["validated"] += 3
+            if bad:
+                raise lrv.Inconclusive("translator validation FAILED (encoding disagrees with compiled code): %r" % bad[:4])
+            # ---- the queries
+            verdicts = []
+            for qid, kern, desc, neg in C17_QUERIES:
+                q = prelude + "(declare-const f Int)\n(assert (and (>= f %d) (<= f %d)))\n(assert %s)\n(check-sat)\n(get-value (f))\n" % (FMIN, FMAX, neg)
+                r = {}
+                for solver in ("z3", "cvc5"):
+                    out, dt = solve(q, solver, 240 if tier == "quick" else 1800)
+                    res["solver_time_s"] += dt
+                    a = parse_answers(out)
+                    r[solver] = (a[0] if a else ["error", out[:200]]) + [round(dt, 2)]
+                    res["queries"] += 1
+                verdicts.append(dict(query=qid, property=desc, z3=r["z3"][0], cvc5=r["cvc5"][0], z3_s=r["z3"][2], cvc5_s=r["cvc5"][2]))
+                kinds = {r["z3"][0], r["cvc5"][0]}
+                if kinds == {"unsat"}:
+                    continue
+                if "sat" in kinds:
+                    model = r["z3"][1] if r["z3"][0] == "sat" else r["cvc5"][1]
+                    m = re.search(r"\(f (\d+)\)", model)
+                    fval = int(m.group(1)) if m else None
+                    ok_native = True
+                    if fval is not None:
+                        n2 = native_eval(scratch, [fval], logdir)
+                        if qid == "sx127x_roundtrip":
+                            w = n2.get(("f127", fval))
+                            n3 = native_eval(scratch, [w], logdir) if w != "PANIC" else {}
+                            g = n3.get(("g127", w))
+                            ok_native = g != "PANIC" and g is not None and 0 <= fval - g < 62
+                        else:
+                            ok_native = check_prop_python(qid, fval, n2)
+                        res["validated"] += 1
+                    if fval is not None and not ok_native:
+                        rdir = os.path.join(lrv.VERIF, "replays", "C17")
+                        os.makedirs(rdir, exist_ok=True)
+                        rp = os.path.join(rdir, "%s.json" % qid)
+                        json.dump(dict(query=qid, property=desc, frequency_hz=fval, native=str(n2)), open(rp, "w"), indent=1)
+                        res["verdict"] = "violated"
+                        res["replay"] = rp
+                        entry["reason"] = "C17: %s fails for f = %d Hz (reproduced by calling the compiled function)" % (desc, fval)
+                        break
+                    res["verdict"] = "inconclusive"
+                    entry["reason"] = "solver model for %s did not reproduce natively (f=%s)" % (qid, fval)
+                    break
+                res["verdict"] = "inconclusive"
+                entry["reason"] = "query %s: z3=%s cvc5=%s" % (qid, r["z3"][0], r["cvc5"][0])
+                break
+            entry["queries"] = verdicts
+        except (lrv.Inconclusive, mir2smt.Unsupported) as e:
+            res["verdict"] = "inconclusive"
+            entry["reason"] = str(e)
+        entry["verdict"] = res["verdict"]
+        entry.setdefault("reason", "")
+        entry["cbmc_checks"] = res["queries"]
+        entry["covers"] = "n/a"
+        entry["solver_time_s"] = round(res["solver_time_s"], 2)
+        entry["wall_s"] = round(time.time() - t0, 1)
+        return res
+    return job
+
+
 def jobs_for(prop, tier):
+    if prop == "C17":
+        return [job_c17_pll(tier)]
     return []
